@@ -7,12 +7,20 @@ package lib
 // only ever uses time.Since(registrationTime)).
 
 import (
+	"context"
+	"errors"
 	"fmt"
 	"net"
 	"sort"
 	"strings"
+	"sync"
 	"testing"
 	"time"
+
+	"github.com/refraction-networking/conjure/pkg/core"
+	"github.com/refraction-networking/conjure/pkg/transports"
+	"google.golang.org/protobuf/types/known/anypb"
+	"verif/harness/vconn"
 
 	"github.com/refraction-networking/conjure/pkg/station/log"
 	pb "github.com/refraction-networking/conjure/proto"
@@ -29,6 +37,7 @@ type c08Op struct {
 	Ovr    int    `json:"ovr,omitempty"` // 0 = derived phantom, k>0 = registrar-overridden phantom #k
 	DeltaS int64  `json:"delta_s,omitempty"`
 	Tunnel bool   `json:"tunnel,omitempty"` // connect: the handler also relays (Proxy), as it does for every matched connection
+	Dial   string `json:"dial,omitempty"`   // ingest of a connecting-transport registration (TT 3): outcome of the station's dial to the client: "fail" | "timeout" | "ok" (connected; the session ends at once)
 	Mid    string `json:"mid,omitempty"`    // sweep: an operation of this kind (connect | ingest, with this op's Secret/TT/V6/Ovr/Tunnel) arrives between the sweep's collection and removal phases
 }
 
@@ -45,6 +54,9 @@ func (o c08Op) String() string {
 	if o.Tunnel {
 		return fmt.Sprintf("%s+relay(s%d,t%d,v6=%v,o%d)", o.Kind, o.Secret, o.TT, o.V6, o.Ovr)
 	}
+	if o.TT == 3 {
+		return fmt.Sprintf("%s(s%d,dtls,v6=%v,o%d,station's dial: %s)", o.Kind, o.Secret, o.V6, o.Ovr, o.Dial)
+	}
 	return fmt.Sprintf("%s(s%d,t%d,v6=%v,o%d)", o.Kind, o.Secret, o.TT, o.V6, o.Ovr)
 }
 
@@ -52,7 +64,55 @@ type c08Case struct {
 	Ops []c08Op `json:"ops"`
 }
 
-var c08TT = []pb.TransportType{pb.TransportType_Min, pb.TransportType_Prefix, pb.TransportType_Obfs4}
+var c08TT = []pb.TransportType{pb.TransportType_Min, pb.TransportType_Prefix, pb.TransportType_Obfs4, pb.TransportType_DTLS}
+
+// c08cTransport stands in for the connecting (DTLS) transport: the station dials the client when
+// the registration is ingested; the outcome of that dial is scripted per operation.
+type c08cTransport struct {
+	mu      *sync.Mutex
+	outcome map[string]string // shared secret (hex) -> outcome
+}
+
+func (c08cTransport) Name() string      { return "dtls" }
+func (c08cTransport) LogPrefix() string { return "DTLS" }
+func (c08cTransport) GetIdentifier(r transports.Registration) string {
+	return string(core.ConjureHMAC(r.SharedSecret(), "verif-connecting"))
+}
+func (c08cTransport) GetProto() pb.IPProto                        { return pb.IPProto_Udp }
+func (c08cTransport) GetDstPort(uint, []byte, any) (uint16, error) { return 443, nil }
+func (c08cTransport) ParseParams(uint, *anypb.Any) (any, error)    { return nil, nil }
+func (c08cTransport) ParamStrings(any) []string                    { return nil }
+func (t c08cTransport) Connect(ctx context.Context, reg transports.Registration) (net.Conn, error) {
+	t.mu.Lock()
+	oc := t.outcome[fmt.Sprintf("%x", reg.SharedSecret())]
+	t.mu.Unlock()
+	switch oc {
+	case "ok":
+		return vconn.New(vconn.Script{Reads: []vconn.Step{{Data: vh.Hex([]byte("hello"))}}, End: "eof", Remote: "203.0.113.77:5555"}), nil
+	case "timeout":
+		return nil, context.DeadlineExceeded
+	}
+	return nil, errors.New("error connecting to dtls client: connection refused")
+}
+
+type c08cStats struct{ done chan string }
+
+func (s *c08cStats) AddCreatedConnecting(uint, string, string)             {}
+func (s *c08cStats) AddCreatedToSuccessfulConnecting(uint, string, string) {}
+func (s *c08cStats) AddCreatedToTimeoutConnecting(uint, string, string)    { s.done <- "timeout" }
+func (s *c08cStats) AddSuccessfulToDiscardedConnecting(uint, string, string) {
+	s.done <- "ok"
+}
+func (s *c08cStats) AddOtherFailConnecting(uint, string, string) { s.done <- "fail" }
+
+var c08cOutcomes = c08cTransport{mu: &sync.Mutex{}, outcome: map[string]string{}}
+var c08cDone = &c08cStats{done: make(chan string, 64)}
+
+// c08Connecting makes the environment handle connecting-transport registrations.
+func c08Connecting(e *vEnv) {
+	e.rm.connectingStats = c08cDone
+	_ = e.rm.AddTransport(pb.TransportType_DTLS, c08cOutcomes)
+}
 
 // secrets 0..2 are unrelated; secret 3 shares its first 8 bytes (the logging id) with secret 0.
 func c08Secret(i int) []byte {
@@ -88,6 +148,10 @@ func c08MakeReg(e *vEnv, o c08Op) (*DecoyRegistration, error) {
 			rr.Ipv4Addr = proto.Uint32(0xC07ABE00 | uint32(o.Ovr)) // 192.122.190.k
 		}
 		w.RegistrationResponse = rr
+	}
+	if o.TT == 3 {
+		w.RegistrationPayload.TransportParams = nil
+		w.RegistrationPayload.CovertAddress = proto.String("127.0.0.1:1") // refuses at once
 	}
 	return e.rm.NewRegistrationC2SWrapper(w, o.V6)
 }
@@ -153,9 +217,32 @@ func c08Run(e *vEnv, c c08Case) (key, msg string, stats map[string]bool) {
 				ent.valid = true
 			}
 		case "ingest":
+			if o.TT == 3 {
+				c08cOutcomes.mu.Lock()
+				c08cOutcomes.outcome[fmt.Sprintf("%x", reg.Keys.SharedSecret)] = o.Dial
+				c08cOutcomes.mu.Unlock()
+			}
 			e.rm.ingestRegistration(reg)
 			if !exists {
 				model[k] = &c08Entry{desc: o.String(), valid: true}
+				if o.TT == 3 {
+					// the station dials the client now; wait for the outcome
+					select {
+					case got := <-c08cDone.done:
+						want := o.Dial
+						if want == "" {
+							want = "fail"
+						}
+						if got != want {
+							return "harness", fmt.Sprintf("step %d: dial outcome %q, scripted %q", step, got, want)
+						}
+					case <-time.After(30 * time.Second):
+						return "harness", fmt.Sprintf("step %d: the station never dialled the client of a new connecting-transport registration", step)
+					}
+					// a dial that succeeded carried a connection (the session it relayed has ended)
+					model[k].used = o.Dial == "ok"
+					stats["connecting:"+o.Dial] = true
+				}
 			} else {
 				stats["duplicate"] = true
 			}
@@ -449,6 +536,10 @@ func c08Gen(rt *rapid.T) c08Case {
 				o.Secret = rapid.IntRange(4, 400).Draw(rt, "secret2")
 			}
 			o.TT = rapid.IntRange(0, 2).Draw(rt, "tt")
+			if k == "ingest" && rapid.IntRange(0, 4).Draw(rt, "connecting") == 0 {
+				o.TT = 3
+				o.Dial = rapid.SampledFrom([]string{"fail", "fail", "timeout", "ok"}).Draw(rt, "dial")
+			}
 			o.V6 = rapid.Bool().Draw(rt, "v6")
 			if rapid.IntRange(0, 3).Draw(rt, "ovrp") == 0 {
 				o.Ovr = rapid.IntRange(1, 2).Draw(rt, "ovr")
@@ -464,10 +555,11 @@ func c08Gen(rt *rapid.T) c08Case {
 // 3 transports, both families, registrar-overridden phantoms that make different secrets share a
 // phantom).
 func TestVerif_C08_random(t *testing.T) {
-	rec := vh.NewRec("C08", "random", "rapid-generated histories of 1-120 operations (track, validate, ingest, connect with or without the relay step, advance time, sweep, sweep during which a connect or ingest arrives between collection and removal) over 4 secrets x {min,prefix,obfs4} x {v4,v6} x {derived, overridden phantom}; non-trivial as in the exhaustive sub-check; distinct by history")
+	rec := vh.NewRec("C08", "random", "rapid-generated histories of 1-120 operations (track, validate, ingest - incl. connecting-transport registrations whose dial to the client fails, times out or succeeds -, connect with or without the relay step, advance time, sweep, sweep during which a connect or ingest arrives between collection and removal) over 4 secrets x {min,prefix,obfs4} x {v4,v6} x {derived, overridden phantom}; non-trivial as in the exhaustive sub-check; distinct by history")
 	defer rec.Flush()
-	rec.Require("sweep-removes-some-keeps-some", "one-secret-several-transports", "connect", "connect-with-tunnel", "operation-during-sweep")
+	rec.Require("sweep-removes-some-keeps-some", "one-secret-several-transports", "connect", "connect-with-tunnel", "operation-during-sweep", "connecting:fail", "connecting:ok")
 	e := vNewEnv(t, nil, "")
+	c08Connecting(e)
 	if p := vh.ReplayFile(); p != "" {
 		var c c08Case
 		if _, _, err := vh.LoadReplay(p, &c); err != nil {
